@@ -133,6 +133,9 @@ impl R2ROperator<Triple, Vec<PhysicalOperator>, Vec<(String, String)>> for Simpl
     }
 
     fn add(&mut self, data: Triple) {
+        // A triple asserted by the stream is a base fact from now on, even if the previous
+        // cycle derived it: the next eviction of derived triples must not delete it.
+        self.derived_triples.retain(|derived| derived != &data);
         self.item.add_triple(data);
     }
 
